@@ -22,11 +22,14 @@ REQUIRED_THEOREMS = [
     'C18_shared_predictive_model_alias_counterexample', 'C18_pointwise_keeps_coordinates',
     'C18_pointwise_derived_entry', 'C18_derived_labels_within', 'C18_predictive_rows_derived',
     'C18_pointwise_shifted_entry', 'C18_axis_sublist_find', 'C18_axis_fromLabel_find', 'C18_axis_selLabels_find',
-    'C18_axis_shift_find', 'C18_pointwise_relabel_partial', 'C18_pointwise_relabel_counterexample']
+    'C18_axis_shift_find', 'C18_pointwise_relabel_partial', 'C18_pointwise_relabel_counterexample',
+    'C18_filter_epsilon_name_slot', 'C18_filter_epsilon_slot_injective']
 RULE = ('random posteriors: individual (LogPosterior), hierarchical (1-3 population sub-models out of '
         'Gaussian / log-normal centred and non-centred, truncated Gaussian, pooled, heterogeneous, covariate-'
         'wrapped Gaussian and pooled, reduced), 1-4 individuals, 1-2 dims per sub-model, and population-filter '
-        'posteriors; random raw chains (1-3 chains, 1-5 draws) with pairwise distinct entries; seeds; 2-run '
+        'posteriors (1-3 observables, 1-3 measurement times, 2-4 simulated individuals, fixed — possibly zero — or '
+        'inferred noise scales; every noise entry moved alone: only the score difference to a posterior whose data '
+        'differ at the named output / time responds); random raw chains (1-3 chains, 1-5 draws) with pairwise distinct entries; seeds; 2-run '
         'optimisations; read-back through PosteriorPredictiveModel and compute_pointwise_loglikelihood. '
         'Optimisation tables: 1-4 runs of labelled / unlabelled individual and hierarchical posteriors with a '
         'recording optimiser (set_optimiser) of which any subset of the runs breaks down after 0-3 iterations; '
@@ -1053,25 +1056,34 @@ def filter_case(ctx, chi, rng, k):
     n_times = int(rng.integers(1, 4))
     tseed = int(rng.integers(0, 1000))
     fixed_sigma = bool(rng.random() < 0.5)
+    # 1-3 observables (model outputs); a fixed sigma may switch the noise of an output off (sigma = 0)
+    n_obs = [1, 2, 2, 3][int(rng.integers(4))]
+    sig = [[0.4, 0.3, 0.6, 0.0][int(rng.integers(4 if n_obs > 1 else 3))] for _ in range(n_obs)]
+    log_scale = bool(rng.random() < 0.25)
     inp = {'kind': 'filter', 'k': k, 'cfg': cfg, 'n_sim': n_sim, 'n_times': n_times, 'toy_seed': tseed,
-           'fixed_sigma': fixed_sigma}
+           'fixed_sigma': fixed_sigma, 'n_observables': n_obs, 'sigma': sig if fixed_sigma else None,
+           'error_on_log_scale': log_scale}
     subs = [make_sub(chi, kd, nd) for kd, nd in cfg]
     pm = chi.ComposedPopulationModel(subs) if len(subs) > 1 else subs[0]
-    obs = rng.uniform(1.0, 3.0, size=(4, 1, n_times))
+    obs = rng.uniform(1.0, 3.0, size=(4, n_obs, n_times))
     times = list(np.arange(1, n_times + 1) * 0.5)
+    pm.set_n_ids(n_sim)
+    n_top = pm.n_parameters() + (0 if fixed_sigma else n_obs)
+
+    def build(observations):
+        return chi.PopulationFilterLogPosterior(
+            chi.GaussianFilter(observations), times, toy.ToyModel(n_obs, n_mech, tseed), pm,
+            prior_for(n_top, tseed), sigma=list(sig) if fixed_sigma else None, n_samples=n_sim,
+            error_on_log_scale=log_scale)
     try:
-        filt = chi.GaussianFilter(obs)
-        pm.set_n_ids(n_sim)
-        n_top = pm.n_parameters() + (0 if fixed_sigma else 1)
-        lp = chi.PopulationFilterLogPosterior(filt, times, toy.ToyModel(1, n_mech, tseed), pm,
-                                              prior_for(n_top, tseed), sigma=[0.4] if fixed_sigma else None,
-                                              n_samples=n_sim)
+        lp = build(obs)
     except Exception as e:  # noqa
         ctx.notes.append('filter posterior not constructible: %s %r' % (cfg, repr(e)[:120]))
         return
     special = any(kd in ('P', 'H') for kd, _ in cfg)
-    ctx.case('filter/%s' % '+'.join(kd for kd, _ in cfg),
-             nontrivial='filter/%s/sim%d/t%d' % (cfg, n_sim, n_times) if special else False, sample=inp)
+    ctx.case('filter/%s/obs%d' % ('+'.join(kd for kd, _ in cfg), n_obs),
+             nontrivial='filter/%s/sim%d/t%d/o%d' % (cfg, n_sim, n_times, n_obs)
+             if special or (n_obs >= 2 and n_times >= 2) else False, sample=inp)
     fmt, _ = format_case(ctx, chi, lp, 'filter', inp, rng)
     flags = sub_flags(chi, pm)
     seed = pick_seed(rng)
@@ -1098,12 +1110,92 @@ def filter_case(ctx, chi, rng, k):
     pops = [np.asarray(pm2.sample(parameters=top[s, :n_pop], n_samples=n_sim, seed=r), float).reshape(n_sim, -1)
             for s in range(n)]
     n_eps = x0.shape[1] - n_topp - n_sim * sum(nd for nd, _, sp in flags if not sp)
-    eps = np.asarray(r.normal(loc=0, scale=1, size=(n, n_sim * n_times * 1)), float)
+    eps = np.asarray(r.normal(loc=0, scale=1, size=(n, n_sim * n_times * n_obs)), float)
     for s in range(n):
         mo = ctx.model('C18.init_row_filter', flags, list(top[s]), [list(v) for v in pops[s]], list(eps[s]))
         ctx.agree('C18.initial/filter', x0[s], mo[0], inp, rtol=0.0)
         ctx.spec('C18.initial_structure/filter', n_eps == eps.shape[1] and np.array_equal(x0[s], np.asarray(mo[0])),
                  inp, {'row': s})
+    filter_noise_labels(ctx, chi, rng, lp, build, obs, n_sim, n_times, n_obs, x0, vals, inp,
+                        sum(nd for nd, _, sp in flags if not sp))
+    if k % 5 == 0:
+        # the optimisation table of a filter posterior: its Parameter / ID columns are these names / IDs
+        table_case(ctx, chi, lp, 'filter', inp, rng)
+
+
+def filter_noise_labels(ctx, chi, rng, lp, build, obs, n_sim, n_times, n_obs, x0, vals, inp, n_hdim):
+    """`get_parameter_names()` / `get_id()` of a population-filter posterior — the 'Parameter' / 'ID' columns of
+    the optimisation table, the variables / individual coordinate of the dataset: the entry named
+    '<output> Epsilon time <k>' of 'Sim. <s>' is the noise realisation of THAT output at THAT (k-th) time.
+    Observed through the score only: the noise of output o at time k enters the simulated measurements that are
+    compared with the data of output o at time k, so the difference between the scores of two posteriors whose
+    data differ in the cell (o, k) only responds to moving that entry — and to no noise entry named otherwise."""
+    names = lp.get_parameter_names()
+    ids = lp.get_id()
+    outputs = toy.ToyModel(n_obs, 1, 0).outputs()
+    want = {('%s Epsilon time %d' % (outputs[o], t + 1), 'Sim. %d' % (s + 1)): (s, o, t)
+            for s in range(n_sim) for o in range(n_obs) for t in range(n_times)}
+    where = {}
+    for p, key in enumerate(zip(names, ids)):
+        if key in want:
+            where.setdefault(key, []).append(p)
+    once = len(names) == len(ids) == lp.n_parameters() and all(len(where.get(key, [])) == 1 for key in want)
+    ctx.spec('C18.filter_names/every_noise_realisation_named_once', once, inp,
+             {'names': names, 'ids': ids, 'missing or repeated': [list(key) for key in want
+                                                                  if len(where.get(key, [])) != 1][:4]})
+    if not once:
+        return
+    # model: the slot `parameters[end_bottom:].reshape(n_sim, n_observables, n_times)[s, o, t]` of the vector
+    mo = ctx.model('C18.eps_slots', lp.n_parameters(exclude_bottom_level=True), n_hdim, n_sim, n_obs, n_times)
+    ctx.agree('C18.filter_names/noise_slots', [where[key][0] for key in want], mo[0], inp)
+    finite = [i for i, v in enumerate(vals) if math.isfinite(v)]
+    if not finite:
+        ctx.branches.add('filter_names:no_finite_start')
+        return
+    base = np.array(x0[finite[0]], float)
+    sigma = inp['sigma']
+    if sigma is None:
+        sigma = [1.0] * n_obs          # inferred noise scales: the prior's support is positive, every output is noisy
+    cells = [(o, t) for o in range(n_obs) for t in range(n_times)]
+    others = []
+    for o, t in cells:
+        shifted = obs.copy()
+        shifted[:, o, t] += 1.0          # other data for output o at time t, the same everywhere else
+        others.append(build(shifted))
+    with np.errstate(all='ignore'):
+        d0 = np.array([float(lp(base)) - float(b(base)) for b in others])
+    if not np.all(np.isfinite(d0)) or abs(vals[finite[0]]) > 1e6 or np.any(np.abs(d0) > 1e6):
+        ctx.branches.add('filter_names:degenerate_start')       # (simulated individuals that nearly coincide)
+        return
+    keys = list(want)
+    if len(keys) > 14:
+        keys = [keys[int(j)] for j in rng.choice(len(keys), size=14, replace=False)]
+    delta = [0.7, -0.9, 1.3][int(rng.integers(3))]
+    problems = []
+    for key in keys:
+        s, o, t = want[key]
+        x = base.copy()
+        x[where[key][0]] += delta
+        with np.errstate(all='ignore'):
+            a = float(lp(x))
+            d = np.array([a - float(b(x)) for b in others])
+        if not np.all(np.isfinite(d)):
+            continue
+        scale = 1.0 + abs(a) + np.abs(d) + np.abs(d0)
+        # (float noise of a difference of two scores is some 1e-15 of their size; between the two thresholds:
+        # no verdict)
+        responds = np.abs(d - d0) > 1e-9 * scale
+        silent = np.abs(d - d0) <= 1e-11 * scale
+        for ci, (o2, t2) in enumerate(cells):
+            should = (o2, t2) == (o, t) and sigma[o] > 0
+            if (should and silent[ci]) or (not should and responds[ci]):
+                problems.append({'entry': list(key), 'position': where[key][0],
+                                 'data changed for': [outputs[o2], 'time %d' % (t2 + 1)],
+                                 'score difference moved by': float(d[ci] - d0[ci]),
+                                 'expected to respond': bool(should)})
+    ctx.branches.add('filter_names:obs%d/times%d' % (min(n_obs, 2), min(n_times, 2)))
+    ctx.spec('C18.filter_names/noise_entry_labels_its_output_and_time', not problems, inp,
+             {'problems': problems[:4], 'moved by': delta, 'sigma': [float(v) for v in sigma]})
 
 
 # ----------------------------------------------------------------------------------------
